@@ -69,9 +69,12 @@ func c03Scenarios(c *vlib.Ctx) []c03Scenario {
 		sc := &out[i]
 		basic := sc.Kind == "basic-terminated"
 		if sc.Instant == "mixed" {
-			// a lasting disagreement BEFORE the victim in child order: t0 finishes first, the victim is t1
+			// two critical siblings listed BEFORE the victim disagree for good (t0 finishes -> DONE, t1 stays): the victim is t4
 			sc.Critical = true
-			sc.Victim = "t1"
+			sc.Victim = "t4"
+			if sc.Kind == "basic-terminated" {
+				sc.Kind = "failed"
+			}
 			continue
 		}
 		switch {
@@ -121,6 +124,7 @@ func c03Run(c *vlib.Ctx, idx int, sc c03Scenario) {
 		{Name: "t1", Host: "host2", Critical: true, Mode: "basic"},
 		{Name: "t2", Host: "host3", Critical: false, Mode: "fairmq"},
 		{Name: "t3", Host: "host3", Critical: false, Mode: "basic"},
+		{Name: "t4", Host: "host1", Critical: true, Mode: "direct"}, // last in child order: the victim of "mixed"
 	}}
 	opt := coresim.Options{Agents: stdAgents(3), Detectors: stdDetectors(3), Files: wf.Files()}
 	if sc.Delay {
@@ -237,7 +241,7 @@ func c03Run(c *vlib.Ctx, idx int, sc c03Scenario) {
 					}
 				}
 			}
-			if n >= 4 {
+			if n >= 5 {
 				break
 			}
 			time.Sleep(5 * time.Millisecond)
